@@ -193,6 +193,31 @@ def check_case(run, case):
     finally:
         repo.drop_rules(name)
 
+def check_retrain(run, case):
+    """The config's file lists must name exactly the files that exist also after re-training an existing rule directory with a list that lacks
+    whole categories (two-step history)."""
+    from . import c06
+    from .. import trainlists
+    first, second = case['first'], case['second']
+    name, path, resA = trained.train_case(first, 'c07r')
+    try:
+        if not resA.ok:
+            run.ev('trainings_not_completed'); run.inconc('training did not complete'); return
+        data = trainlists.render_plain([(p, k) for p, k in second['items']], second['encoding'])
+        resB = trainer.train(data, path, encoding=second['encoding'], coverage=second['coverage'], ngram=second['ngram'], alphabet_size=second['alphabet'],
+                             max_len=second['max_len'])
+        if not resB.ok:
+            run.ev('trainings_not_completed'); run.inconc('training did not complete'); return
+        disk = oracles.Disk(path)
+        for letter, (directory, names) in disk.filelists.items():
+            have = sorted(os.listdir(os.path.join(path, directory)))
+            if sorted(names) != have:
+                run.violation(f'after re-training an existing rule directory config.ini lists {sorted(names)} for {directory}/ but the directory holds {have}', case); return
+        run.ev('retrainings_checked')
+        run.case(h(['retrain', first['items'], second['items']]))
+    finally:
+        repo.drop_rules(name)
+
 def run(run, rng):
     run.required_events = ['trainings', 'disk_vs_tally', 'guesser_loader_compared', 'scorer_loader_compared', 'omen_loaders_compared']
     run.min_distinct = 4
@@ -204,6 +229,13 @@ def run(run, rng):
         run.extra['exhaustive_scope'] = 'all 63488 BMP scalar values (8 placements each) under utf-8; other encodings and astral code points are sampled'
     for case in cases:
         run.guard(case, check_case, seconds=300)
+    if run.shard[0] == 0:
+        from . import c06
+        for _ in range(3 if run.tier == 'quick' else 25):
+            run.guard(c06.gen_retrain_case(rng), check_retrain, seconds=300)
 
 def replay(run, case):
-    check_case(run, case['case'])
+    if case['case'].get('retrain'):
+        check_retrain(run, case['case'])
+    else:
+        check_case(run, case['case'])
